@@ -30,7 +30,7 @@ func (check) Cases(tier string) int {
 }
 
 func (check) Rule() string {
-	return "a config is built from a generated tree (every node a dictionary or a list, no references) (root a dictionary, in 1 of 5 cases a list) and then driven through a history of 3-20 shape-aware operations, each issued either on the root or on a handle obtained with Child for a randomly chosen non-empty dictionary or list of the tree (addresses relative to that receiver, spelled with a per-case path separator drawn from a pool): writes of primitives and fresh sub-configs at existing/new keys and list positions, removals (biased to the middle of lists), merges of a shape-compatible mutation of the receiver's subtree (a map for a dictionary receiver, a list for a list receiver; passed as Go data, as a parentless *Config or as a child handle of another config) under default/append/prepend/replace/arr-replace, and as an optional last step re-attachment of an already parented child (SetChild of a handle obtained with Child). After EVERY step: (1) hook walk: every stored field name equals the key/index actually leading to the node and every stored parent is the config actually holding it; (2) API walk: Child(...).Path(sep) and PathOf(field, sep) equal the address sequence and Parent() is the config it was reached from, FlattenedKeys of sampled child handles lists the root-relative paths below them; (3) FlattenedKeys equals the model's set of non-nil primitive leaf paths; (4) CompareConfigs(previous state, current) equals the (kept, added, removed) partition of the two model key sets and a config compared with an equal copy reports no change. Every observer call draws its own option list: no option at all (paths spelled with \".\") or PathSep with a separator from the pool (paths spelled with it). Non-trivial = history with >= 2 successful structural mutations; distinct = distinct (initial tree, history)."
+	return "a forest of up to 3 live configs: the first is built from a generated tree (every node a dictionary or a list, no references; root a dictionary, in 1 of 5 cases a list), further ones come into being as merge operands that stay in use (a *Config, a wrapper whose child is merged) or as clones (NewFrom of a live root or child handle). History of 3-20 shape-aware operations, each issued on the root of one tree or on a handle obtained with Child for a randomly chosen container of it (addresses relative to that receiver, spelled with a per-case path separator from a pool): writes of primitives and fresh sub-configs at existing/new keys and list positions (a container without named settings and without elements is written by name or by index, so emptied dictionaries become lists and emptied lists dictionaries), removals (biased to the middle of lists and to the last setting of a container), merges under default/append/prepend/replace/arr-replace of either a shape-compatible mutation of the receiver's subtree (Go data, parentless *Config, child handle of another config) or a LIVE node (root or child of another tree, or a node of the same tree beside the receiver), re-attachment of an already parented child anywhere in any tree (SetChild of a handle obtained with Child: a copy), clones. After EVERY step and for EVERY live tree (so also for the source of a merge/copy and for original and copy after later writes): (1) hook walk: every stored field name equals the key/index actually leading to the node and every stored parent is the config actually holding it; (2) API walk: Child(...).Path(sep) and PathOf(field, sep) equal the address sequence and Parent() is the config it was reached from, FlattenedKeys of sampled child handles lists the root-relative paths below them; (3) FlattenedKeys equals the model's set of non-nil primitive leaf paths; (4) CompareConfigs(previous state, current) equals the (kept, added, removed) partition of the two model key sets and a config compared with an equal copy reports no change. Every observer call draws its own option list: no option at all (paths spelled with \".\") or PathSep with a separator from the pool (paths spelled with it). Non-trivial = history with >= 2 successful structural mutations; distinct = distinct (initial tree, history)."
 }
 
 func (check) Assumptions() []string {
@@ -39,29 +39,10 @@ func (check) Assumptions() []string {
 		"FlattenedKeys lists non-nil primitive leaves only (empty containers and nils are not settings), as the statement says",
 		"Path/PathOf/FlattenedKeys/CompareConfigs spell paths with the separator they are given (\".\" when FlattenedKeys/CompareConfigs get no option), whatever separator the config was built or written with; key names never contain a separator of the pool",
 		"FlattenedKeys called on a child handle lists the settings below that child with root-relative paths (the statement says root-relative)",
-		"a re-attached child is expected at its new place (and, the old handle still being stored there, at the old one); histories end after a re-attachment",
+		"Merge/NewFrom with a live *Config as source and SetChild of an already parented child copy: source and destination are independent configs afterwards, each describing its own structure",
+		"a node with zero named settings that holds elements is a list (and one with named settings and no elements a dictionary) whatever it held earlier; merges never let named settings meet elements in one node",
+		"a live node is merged only into a receiver outside its own subtree and not above it",
 	}
-}
-
-// event records where one step of the history changed the structure and which
-// narrow signature a deviation found at or below that place gets ("" = the
-// generic signature of the observation that failed).
-type event struct {
-	path string // "."-joined absolute path of the container the step worked on
-	sig  string
-}
-
-type state struct {
-	res        *harness.R
-	r          *rand.Rand
-	c          *ucfg.Config
-	m          *model.Node
-	sep        string // separator of all addressed operations of the case
-	log        []string
-	muts       int
-	failed     bool
-	events     []event // bookkeeping for the classifier, one or two per step
-	reattached bool
 }
 
 // sepPool: separators for addressed operations and for the observers. Key
@@ -233,17 +214,77 @@ func leafPaths(n *model.Node, q []string, out *[]string) {
 	}
 }
 
+// tree is one live configuration of the forest together with its model.
+type tree struct {
+	c *ucfg.Config
+	m *model.Node
+}
+
+// maxTrees bounds the forest: the initial config plus configs that came into
+// being as merge operands or clones and stay in use afterwards.
+const maxTrees = 3
+
+// event records where one step of the history changed the structure and which
+// narrow signature a deviation found at or below that place gets ("" = the
+// generic signature of the observation that failed).
+type event struct {
+	t    int    // index of the tree
+	path string // "."-joined absolute path of the container the step worked on
+	sig  string
+}
+
+type state struct {
+	res    *harness.R
+	r      *rand.Rand
+	trees  []*tree
+	sep    string // separator of all addressed operations of the case
+	log    []string
+	muts   int
+	failed bool
+	events []event // bookkeeping for the classifier, one or two per step
+	// containers that lost their last named setting / last element by a removal
+	emptiedDict, emptiedList map[*model.Node]bool
+}
+
+func blank(n *model.Node) bool { return n.IsSub() && len(n.D) == 0 && len(n.A) == 0 }
+
+// shapesAgree: merging b into cur never lets a dictionary meet a list.
+func shapesAgree(cur, b *model.Node) bool {
+	if cur == nil || !cur.IsSub() || !b.IsSub() {
+		return true
+	}
+	if !blank(cur) && !blank(b) && isList(cur) != isList(b) {
+		return false
+	}
+	for k, v := range b.D {
+		if !shapesAgree(cur.D[k], v) {
+			return false
+		}
+	}
+	for i, v := range b.A {
+		if i < len(cur.A) && !shapesAgree(cur.A[i], v) {
+			return false
+		}
+	}
+	return true
+}
+
+func disjoint(a, b []string) bool {
+	ja, jb := join(a)+".", join(b)+"."
+	return len(a) > 0 && len(b) > 0 && !strings.HasPrefix(ja, jb) && !strings.HasPrefix(jb, ja)
+}
+
 func (s *state) fail(sig, format string, a ...interface{}) {
 	s.failed = true
 	s.res.Violate(sig, "%s; history=[%s]", fmt.Sprintf(format, a...), strings.Join(s.log, "; "))
 }
 
 // classify narrows a structural deviation at walk path w (canonical spelling)
-// to the most recent step of the history that worked at or above w.
-func (s *state) classify(w string, generic string) string {
+// of tree t to the most recent step of the history that worked at or above w.
+func (s *state) classify(t int, w string, generic string) string {
 	for i := len(s.events) - 1; i >= 0; i-- {
 		e := s.events[i]
-		if e.path == "" || w == e.path || strings.HasPrefix(w, e.path+".") {
+		if e.t == t && (e.path == "" || w == e.path || strings.HasPrefix(w, e.path+".")) {
 			if e.sig != "" {
 				return e.sig
 			}
@@ -265,6 +306,17 @@ func (s *state) address(q []string) (string, int) {
 	return s.nm(q), -1
 }
 
+// handle returns the config stored at path q of tree t (the root for q = nil).
+func (s *state) handle(t int, q []string) (*ucfg.Config, string, error) {
+	if len(q) == 0 {
+		return s.trees[t].c, fmt.Sprintf("T%d", t), nil
+	}
+	name, idx := s.address(q)
+	h, err := s.trees[t].c.Child(name, idx, s.o()...)
+	s.res.Eval(1)
+	return h, fmt.Sprintf("T%d.Child(%q,%d)", t, name, idx), err
+}
+
 // rootList generates a non-empty top-level list.
 func rootList(r *rand.Rand) *model.Node {
 	for {
@@ -278,31 +330,31 @@ func rootList(r *rand.Rand) *model.Node {
 func (check) Run(seed int64, tier string, idx int, verbose bool) harness.Result {
 	res := harness.NewR(idx)
 	r := rand.New(rand.NewSource(harness.Mix(seed, "C15", idx)))
-	s := &state{res: res, r: r, sep: "."}
+	s := &state{res: res, r: r, sep: ".", emptiedDict: map[*model.Node]bool{}, emptiedList: map[*model.Node]bool{}}
 	if r.Intn(2) == 0 {
 		s.sep = sepPool[r.Intn(len(sepPool))]
 	}
 	res.SetAdd("operation_sep", s.sep)
+	var m *model.Node
 	if r.Intn(5) == 0 {
-		s.m = rootList(r)
+		m = rootList(r)
 		res.Ev("cases_with_list_root", 1)
 	} else {
-		s.m = gen.TopDict(r, treeOpts, 3)
+		m = gen.TopDict(r, treeOpts, 3)
 	}
-	init := s.m.String()
 	panicked, pv, where := harness.Safe(func() {
-		c, err := ucfg.NewFrom(s.m.ToGo(), s.o()...)
+		c, err := ucfg.NewFrom(m.ToGo(), s.o()...)
 		res.Eval(1)
 		if err != nil {
-			s.fail("newfrom-error", "NewFrom(%s): %v", s.m, err)
+			s.fail("newfrom-error", "NewFrom(%s): %v", m, err)
 			return
 		}
-		s.c = c
-		s.log = append(s.log, fmt.Sprintf("sep=%q NewFrom(%s)", s.sep, init))
-		s.verify(nil)
+		s.trees = []*tree{{c, m}}
+		s.log = append(s.log, fmt.Sprintf("sep=%q T0=NewFrom(%s)", s.sep, m))
+		s.verify(-1, nil)
 		n := 3 + r.Intn(18)
 		for i := 0; i < n && !s.failed; i++ {
-			if s.step(i == n-1) {
+			if s.step() {
 				break
 			}
 		}
@@ -318,74 +370,103 @@ func (check) Run(seed int64, tier string, idx int, verbose bool) harness.Result 
 	}
 	if verbose {
 		fmt.Println(strings.Join(s.log, "\n"))
-		fmt.Println("final model:", s.m)
+		for i, t := range s.trees {
+			fmt.Printf("final model T%d: %s\n", i, t.m)
+		}
 	}
+	res.Ev("live_configs_at_end_of_history", int64(len(s.trees)))
 	return res.Done()
 }
 
-// receiver chooses the config the next operation is issued on: the root or a
-// handle (obtained with Child) of a non-empty container somewhere in the tree.
+// receiver chooses the config the next operation is issued on: the root of
+// tree t or a handle (obtained with Child) of a container somewhere in it.
 // rq is its absolute path, rm its model node, kind names what it is.
-func (s *state) receiver() (recv *ucfg.Config, rq []string, rm *model.Node, kind, pfx string, ok bool) {
+func (s *state) receiver(t int) (recv *ucfg.Config, rq []string, rm *model.Node, kind, pfx string) {
+	tr := s.trees[t]
 	if s.r.Intn(2) == 0 {
 		var cand [][]string
-		nodesOf(s.m, nil, func(n *model.Node) bool { return n.IsSub() && (len(n.D) > 0 || len(n.A) > 0) }, &cand)
-		if len(cand) > 0 && len(cand[0]) == 0 {
-			cand = cand[1:] // the root itself
-		}
+		nodesOf(tr.m, nil, func(n *model.Node) bool { return n.IsSub() }, &cand)
+		cand = cand[1:] // the root itself
 		if len(cand) > 0 {
 			rq = cand[s.r.Intn(len(cand))]
 		}
 	}
-	rm, recv = at(s.m, rq), s.c
+	recv, pfx, err := s.handle(t, rq)
+	if err != nil {
+		if n := at(tr.m, rq); !blank(n) {
+			s.fail("child-error", "%s of the non-empty container at %v failed: %v", pfx, rq, err)
+			return nil, nil, nil, "", ""
+		}
+		// a container without settings may read as nil: work on the root instead
+		s.res.Ev("blank_container_without_handle", 1)
+		rq = nil
+		recv, pfx, _ = s.handle(t, nil)
+	}
+	rm = at(tr.m, rq)
 	where := "root"
 	if len(rq) > 0 {
-		name, idx := s.address(rq)
-		h, err := s.c.Child(name, idx, s.o()...)
-		s.res.Eval(1)
-		if err != nil {
-			s.fail("child-error", "Child(%q,%d) of the non-empty container at %v failed: %v", name, idx, rq, err)
-			return nil, nil, nil, "", "", false
-		}
-		recv, where = h, "handle"
-		pfx = fmt.Sprintf("Child(%q,%d).", name, idx)
+		where = "handle"
 	}
-	kind = where + "-dict"
-	if isList(rm) {
+	switch {
+	case blank(rm):
+		kind = where + "-blank"
+	case isList(rm):
 		kind = where + "-list"
+	default:
+		kind = where + "-dict"
 	}
 	s.res.SetAdd("receiver", kind)
-	return recv, rq, rm, kind, pfx, true
+	return recv, rq, rm, kind, pfx + "."
+}
+
+func flds(full []string) []model.Fld {
+	var fs []model.Fld
+	for _, sg := range full {
+		fs = append(fs, model.ParseField(sg, 1024))
+	}
+	return fs
 }
 
 // step performs one operation; returns true if the history must end.
-func (s *state) step(last bool) bool {
+func (s *state) step() bool {
 	r := s.r
-	prev := s.m.Copy()
-	op := r.Intn(20)
-	if last && r.Intn(3) == 0 {
-		op = 100 // re-attachment, only ever as the last step
-	}
-	var recv *ucfg.Config
-	var rq []string
-	var rm *model.Node
-	var kind, pfx string
-	if op < 20 {
-		var ok bool
-		if recv, rq, rm, kind, pfx, ok = s.receiver(); !ok {
-			return true
-		}
-	}
+	op := r.Intn(25)
+	t := r.Intn(len(s.trees))
+	tr := s.trees[t]
+	prev := tr.m.Copy()
 	switch {
 	case op < 7: // write into a dictionary or a list
-		var cont [][]string
+		recv, rq, rm, kind, pfx := s.receiver(t)
+		if recv == nil {
+			return true
+		}
+		var cont, blanks [][]string
 		nodesOf(rm, nil, func(n *model.Node) bool { return n.IsSub() }, &cont)
+		nodesOf(rm, nil, blank, &blanks)
 		q := cont[r.Intn(len(cont))]
+		if len(blanks) > 0 && r.Intn(3) == 0 {
+			q = blanks[r.Intn(len(blanks))]
+		}
 		n := at(rm, q)
 		var seg string
-		if isList(n) && (len(n.A) > 0 || n.HasA) {
+		switch {
+		case blank(n):
+			// no named setting and no element: both a dictionary and a list to be
+			if r.Intn(2) == 0 {
+				seg = "0"
+			} else {
+				seg = gen.Keys[r.Intn(len(gen.Keys))]
+			}
+			switch {
+			case seg == "0" && s.emptiedDict[n]:
+				s.res.Ev("emptied_dictionary_then_filled_by_index", 1)
+			case seg != "0" && s.emptiedList[n]:
+				s.res.Ev("emptied_list_then_given_names", 1)
+			}
+			s.res.Ev("writes_into_blank_container", 1)
+		case isList(n):
 			seg = strconv.Itoa(r.Intn(len(n.A) + 1)) // overwrite or append; no padding (nil elements are fine too but keep lists dense)
-		} else {
+		default:
 			seg = gen.Keys[r.Intn(len(gen.Keys))]
 		}
 		full := cat(q, []string{seg})
@@ -437,40 +518,58 @@ func (s *state) step(last bool) bool {
 			s.fail("set-error", "write at %v below %v failed: %v", full, rq, err)
 			return true
 		}
-		var fs []model.Fld
-		for _, sg := range full {
-			fs = append(fs, model.ParseField(sg, 1024))
-		}
-		if !model.Set(rm, fs, val.Copy()) {
+		if !model.Set(rm, flds(full), val.Copy()) {
 			s.fail("model-error", "model rejected write at %v below %v", full, rq)
 			return true
 		}
-		s.events = append(s.events, event{join(cat(rq, q)), ""})
+		s.events = append(s.events, event{t, join(cat(rq, q)), ""})
 		s.muts++
 		if len(rq) > 0 {
 			s.res.Ev("writes_and_removals_through_handle", 1)
 		}
-	case op < 12: // removal, biased to the middle of lists
-		var cand [][]string
+	case op < 12: // removal, biased to the middle of lists and to last settings
+		recv, rq, rm, kind, pfx := s.receiver(t)
+		if recv == nil {
+			return true
+		}
+		var cand, single [][]string
 		nodesOf(rm, nil, func(n *model.Node) bool { return isList(n) && len(n.A) >= 2 }, &cand)
+		nodesOf(rm, nil, func(n *model.Node) bool { return n.IsSub() && len(n.D)+len(n.A) == 1 }, &single)
 		var full []string
-		if len(cand) > 0 && r.Intn(4) > 0 {
+		switch x := r.Intn(8); {
+		case len(single) > 0 && x < 2: // the last named setting / the last element goes
+			q := single[r.Intn(len(single))]
+			n := at(rm, q)
+			if len(n.A) == 1 {
+				full = cat(q, []string{"0"})
+				s.emptiedList[n] = true
+			} else {
+				full = cat(q, n.SortedKeys())
+				s.emptiedDict[n] = true
+			}
+			s.events = append(s.events, event{t, join(cat(rq, q)), ""})
+			s.res.Ev("removals_emptying_a_container", 1)
+		case len(cand) > 0 && x < 7:
 			q := cand[r.Intn(len(cand))]
 			n := at(rm, q)
 			i := r.Intn(len(n.A) - 1) // never the last element: later ones must shift
 			full = cat(q, []string{strconv.Itoa(i)})
-			s.events = append(s.events, event{join(cat(rq, q)), "stale-index-after-list-remove"})
+			s.events = append(s.events, event{t, join(cat(rq, q)), "stale-index-after-list-remove"})
 			s.res.Ev("removals_from_middle_of_list", 1)
-		} else {
+		default:
 			var dicts [][]string
 			nodesOf(rm, nil, func(n *model.Node) bool { return isDict(n) && len(n.D) > 0 }, &dicts)
 			if len(dicts) == 0 {
 				return false
 			}
 			q := dicts[r.Intn(len(dicts))]
-			ks := at(rm, q).SortedKeys()
+			n := at(rm, q)
+			ks := n.SortedKeys()
 			full = cat(q, []string{ks[r.Intn(len(ks))]})
-			s.events = append(s.events, event{join(cat(rq, q)), ""})
+			if len(ks) == 1 {
+				s.emptiedDict[n] = true
+			}
+			s.events = append(s.events, event{t, join(cat(rq, q)), ""})
 		}
 		name, idx := s.address(full)
 		ok, err := recv.Remove(name, idx, s.o()...)
@@ -480,47 +579,110 @@ func (s *state) step(last bool) bool {
 			s.fail("remove-outcome", "Remove(%v) below %v returned (%v,%v), expected removal", full, rq, ok, err)
 			return true
 		}
-		var fs []model.Fld
-		for _, sg := range full {
-			fs = append(fs, model.ParseField(sg, 1024))
-		}
-		model.Remove(rm, fs)
+		model.Remove(rm, flds(full))
 		s.muts++
 		s.res.SetAdd("op", "remove@"+kind)
 		if len(rq) > 0 {
 			s.res.Ev("writes_and_removals_through_handle", 1)
 		}
-	case op < 20: // merge a shape-compatible mutation of the receiver's subtree into the receiver
+	case op < 19: // merge into the receiver: a mutation of its subtree or a live node
+		recv, rq, rm, kind, pfx := s.receiver(t)
+		if recv == nil {
+			return true
+		}
 		pols := []struct {
 			p model.Policy
 			o ucfg.Option
 		}{{model.PDefault, nil}, {model.PAppend, ucfg.AppendValues}, {model.PPrepend, ucfg.PrependValues}, {model.PReplace, ucfg.ReplaceValues}, {model.PArrReplace, ucfg.ReplaceArrValues}}
 		pol := pols[r.Intn(len(pols))]
-		form := r.Intn(4)
-		b := compat(rm, gen.MutateTop(r, treeOpts, rm, 3))
-		if !b.IsSub() || isList(b) != isList(rm) {
-			return false // a dictionary receiver gets a map, a list receiver a list
-		}
+		form := r.Intn(6)
 		mo := s.o()
 		if pol.o != nil {
 			mo = append(mo, pol.o)
 		}
-		// operand form: Go data, a parentless *Config, a child handle of another config
-		var operand interface{} = b.ToGo()
-		fname := "go-data"
-		switch form {
-		case 2:
-			if oc, e := ucfg.NewFrom(b.ToGo(), s.o()...); e == nil {
-				operand, fname = oc, "config"
+		var b *model.Node
+		var operand interface{}
+		fname := ""
+		srcT, srcPath := -1, ""
+		if form >= 4 {
+			// a live node: the root or a child handle of another tree, or a node
+			// of the same tree that lies beside the receiver
+			type cnd struct {
+				t int
+				q []string
 			}
-		case 3:
-			if wc, e := ucfg.NewFrom(map[string]interface{}{"w": b.ToGo()}, s.o()...); e == nil {
-				if ch, e := wc.Child("w", -1); e == nil {
-					operand, fname = ch, "child-of-other-config"
+			var cands []cnd
+			for j, o := range s.trees {
+				var qs [][]string
+				nodesOf(o.m, nil, func(n *model.Node) bool { return n.IsSub() && !blank(n) }, &qs)
+				for _, q := range qs {
+					if j == t && !disjoint(q, rq) {
+						continue
+					}
+					if n := at(o.m, q); (blank(rm) || isList(n) == isList(rm)) && shapesAgree(rm, n) {
+						cands = append(cands, cnd{j, q})
+					}
+				}
+			}
+			if len(cands) > 0 {
+				c := cands[r.Intn(len(cands))]
+				if h, desc, err := s.handle(c.t, c.q); err == nil {
+					b, operand = at(s.trees[c.t].m, c.q).Copy(), h
+					srcT, srcPath = c.t, join(c.q)
+					fname = "live:" + desc
+					switch {
+					case c.t == t:
+						s.res.Ev("merges_of_live_node_of_same_tree", 1)
+					case len(c.q) == 0:
+						s.res.Ev("merges_of_live_root_of_other_tree", 1)
+					default:
+						s.res.Ev("merges_of_live_child_of_other_tree", 1)
+					}
+				}
+			}
+		}
+		if operand == nil {
+			if blank(rm) && r.Intn(2) == 0 {
+				b = compat(rm, gen.Top(r, treeOpts, 2))
+			} else {
+				b = compat(rm, gen.MutateTop(r, treeOpts, rm, 3))
+			}
+			if !b.IsSub() || (!blank(rm) && isList(b) != isList(rm)) {
+				return false // a dictionary receiver gets a map, a list receiver a list
+			}
+			// operand form: Go data, a parentless *Config, a child handle of another
+			// config; the configs stay in use as further trees while there is room
+			operand, fname = b.ToGo(), "go-data"
+			switch form {
+			case 2:
+				if oc, e := ucfg.NewFrom(b.ToGo(), s.o()...); e == nil {
+					operand, fname = oc, "config"
+					if len(s.trees) < maxTrees {
+						s.trees = append(s.trees, &tree{oc, b.Copy()})
+						srcT, srcPath = len(s.trees)-1, ""
+						fname = fmt.Sprintf("config kept as T%d", srcT)
+					}
+				}
+			case 3:
+				if wc, e := ucfg.NewFrom(map[string]interface{}{"w": b.ToGo()}, s.o()...); e == nil {
+					if ch, e := wc.Child("w", -1); e == nil {
+						operand, fname = ch, "child-of-other-config"
+						if len(s.trees) < maxTrees {
+							s.trees = append(s.trees, &tree{wc, model.Dict().Set("w", b.Copy())})
+							srcT, srcPath = len(s.trees)-1, "w"
+							fname = fmt.Sprintf("Child(\"w\") of {w:...} kept as T%d", srcT)
+						}
+					}
 				}
 			}
 		}
 		moving := isList(rm) && len(rm.A) > 0 && len(b.A) > 0 && pol.p == model.PPrepend
+		if blank(rm) && len(b.A) > 0 && s.emptiedDict[rm] {
+			s.res.Ev("emptied_dictionary_then_list_merged_in", 1)
+		}
+		if blank(rm) && len(b.D) > 0 && s.emptiedList[rm] {
+			s.res.Ev("emptied_list_then_map_merged_in", 1)
+		}
 		err := recv.Merge(operand, mo...)
 		s.res.Eval(1)
 		s.log = append(s.log, fmt.Sprintf("%sMerge[%v,%s](%s)", pfx, pol.p, fname, b))
@@ -533,10 +695,14 @@ func (s *state) step(last bool) bool {
 		if kind != "root-dict" {
 			sig = "wrong-context-after-" + pol.p.String() + "-merge-into-" + kind
 		}
-		s.events = append(s.events, event{join(rq), sig})
+		s.events = append(s.events, event{t, join(rq), sig})
+		if srcT >= 0 {
+			s.events = append(s.events, event{srcT, srcPath, "live-merge-source-disturbed"})
+			s.res.Ev("merges_whose_source_stays_in_use", 1)
+		}
 		s.muts++
 		s.res.SetAdd("op", "merge-"+pol.p.String()+"@"+kind)
-		s.res.SetAdd("merge_operand_form", fname)
+		s.res.SetAdd("merge_operand_form", strings.SplitN(strings.SplitN(fname, ":", 2)[0], " kept", 2)[0])
 		if len(rq) > 0 {
 			s.res.Ev("merges_into_handle", 1)
 		}
@@ -546,116 +712,284 @@ func (s *state) step(last bool) bool {
 		if moving {
 			s.res.Ev("prepend_merges_moving_elements_of_list_receiver", 1)
 		}
-	default: // re-attach an already parented child somewhere else
-		var subs, dicts [][]string
-		nodesOf(s.m, nil, func(n *model.Node) bool { return n.IsSub() }, &subs)
-		nodesOf(s.m, nil, func(n *model.Node) bool { return isDict(n) }, &dicts)
-		var src, dst []string
-		for try := 0; try < 20 && len(dicts) > 0; try++ {
-			a, b := subs[r.Intn(len(subs))], dicts[r.Intn(len(dicts))]
-			if len(a) == 0 {
-				continue
-			}
-			ja, jb := join(a), join(b)
-			if jb == ja || strings.HasPrefix(jb+".", ja+".") {
-				continue // never make a config its own ancestor
-			}
-			src, dst = a, b
-			break
+	case op < 23: // re-attach an already parented child somewhere else (SetChild adds a copy)
+		type cnd struct {
+			t int
+			q []string
 		}
-		if src == nil {
+		var srcs, dsts []cnd
+		for j, o := range s.trees {
+			var qs [][]string
+			nodesOf(o.m, nil, func(n *model.Node) bool { return n.IsSub() }, &qs)
+			for _, q := range qs {
+				if len(q) > 0 {
+					srcs = append(srcs, cnd{j, q})
+				}
+			}
+		}
+		if len(srcs) == 0 {
 			return false
 		}
-		name, idx := s.address(src)
-		h, err := s.c.Child(name, idx, s.o()...)
+		src := srcs[r.Intn(len(srcs))]
+		dt := src.t
+		if r.Intn(2) == 0 {
+			dt = r.Intn(len(s.trees))
+		}
+		var qs [][]string
+		nodesOf(s.trees[dt].m, nil, func(n *model.Node) bool { return n.IsSub() }, &qs)
+		for _, q := range qs {
+			if dt == src.t && strings.HasPrefix(join(q)+".", join(src.q)+".") {
+				continue // never into itself
+			}
+			dsts = append(dsts, cnd{dt, q})
+		}
+		if len(dsts) == 0 {
+			return false
+		}
+		dst := dsts[r.Intn(len(dsts))]
+		if dt != t {
+			prev = s.trees[dt].m.Copy()
+		}
+		t = dt
+		h, desc, err := s.handle(src.t, src.q)
 		if err != nil {
 			return false // e.g. an empty container that reads as nil
 		}
-		key := "r"
-		full := cat(dst, []string{key})
-		err = s.c.SetChild(s.nm(full), -1, h, s.o()...)
-		s.res.Eval(2)
-		s.log = append(s.log, fmt.Sprintf("SetChild(%q,-1, Child(%q,%d))", s.nm(full), name, idx))
+		dn := at(s.trees[dt].m, dst.q)
+		seg := "r"
+		switch {
+		case isList(dn) && !blank(dn):
+			seg = strconv.Itoa(r.Intn(len(dn.A) + 1))
+		case r.Intn(2) == 0:
+			seg = gen.Keys[r.Intn(len(gen.Keys))]
+		}
+		full := cat(dst.q, []string{seg})
+		name, idx := s.address(full)
+		sub := at(s.trees[src.t].m, src.q).Copy()
+		err = s.trees[dt].c.SetChild(name, idx, h, s.o()...)
+		s.res.Eval(1)
+		s.log = append(s.log, fmt.Sprintf("T%d.SetChild(%q,%d, %s)", dt, name, idx, desc))
 		if err != nil {
 			s.fail("set-error", "re-attachment failed: %v", err)
 			return true
 		}
-		sub := at(s.m, src)
-		at(s.m, dst).Set(key, sub) // the same node now sits in both places
-		s.events = append(s.events, event{join(full), "reattached-child-keeps-old-path"}, event{join(src), "reattached-child-keeps-old-path"})
-		s.reattached = true
+		if !model.Set(s.trees[dt].m, flds(full), sub) {
+			s.fail("model-error", "model rejected re-attachment at %v", full)
+			return true
+		}
+		s.events = append(s.events, event{src.t, join(src.q), "reattached-child-keeps-old-path"}, event{dt, join(full), "reattached-child-keeps-old-path"})
 		s.muts++
 		s.res.SetAdd("op", "reattach")
-		s.verify(prev)
-		return true
+		s.res.Ev("reattachments", 1)
+		if dt != src.t {
+			s.res.Ev("reattachments_into_other_tree", 1)
+		}
+		var bl [][]string
+		if nodesOf(sub, nil, blank, &bl); len(bl) > 0 {
+			s.res.Ev("copies_containing_a_blank_container", 1)
+		}
+	default: // clone: a new config made from a live node, both stay in use
+		if len(s.trees) >= maxTrees {
+			return false
+		}
+		var qs [][]string
+		nodesOf(tr.m, nil, func(n *model.Node) bool { return n.IsSub() }, &qs)
+		q := qs[r.Intn(len(qs))]
+		h, desc, err := s.handle(t, q)
+		if err != nil {
+			return false
+		}
+		nc, err := ucfg.NewFrom(h, s.o()...)
+		s.res.Eval(1)
+		s.log = append(s.log, fmt.Sprintf("T%d=NewFrom(%s)", len(s.trees), desc))
+		if err != nil {
+			s.fail("newfrom-error", "NewFrom(live config at %v) failed: %v", q, err)
+			return true
+		}
+		cm := at(tr.m, q).Copy()
+		s.trees = append(s.trees, &tree{nc, cm})
+		s.events = append(s.events, event{t, join(q), "live-merge-source-disturbed"}, event{len(s.trees) - 1, "", ""})
+		s.muts++
+		s.res.SetAdd("op", "clone")
+		s.res.Ev("clones_of_live_nodes", 1)
+		var bl [][]string
+		if nodesOf(cm, nil, blank, &bl); len(bl) > 0 {
+			s.res.Ev("copies_containing_a_blank_container", 1)
+		}
+		prev = nil
 	}
-	s.verify(prev)
+	s.verify(t, prev)
 	return false
 }
 
-func (s *state) verify(prev *model.Node) {
+// verify checks every live tree; changed is the tree the last step wrote to
+// (prev its model before the step), -1 for none.
+func (s *state) verify(changed int, prev *model.Node) {
 	if s.failed {
 		return
 	}
-	// (1) hook walk: stored field names and parent links
-	walk := ucfg.VerifWalk(s.c)
-	s.res.Ev("hook_nodes_walked", int64(len(walk)))
-	if len(walk) == 0 {
-		s.res.Inconc("VerifWalk returned nothing")
+	// (1) hook walks: stored field names and parent links, all trees
+	walks := make([][]ucfg.VerifNode, len(s.trees))
+	owners := map[uintptr]map[uintptr]bool{} // fields table -> configs using it
+	fieldsOf := map[uintptr]uintptr{}
+	for t, tr := range s.trees {
+		walks[t] = ucfg.VerifWalk(tr.c)
+		s.res.Ev("hook_nodes_walked", int64(len(walks[t])))
+		if len(walks[t]) == 0 {
+			s.res.Inconc("VerifWalk returned nothing")
+		}
+		for _, n := range walks[t] {
+			if n.Kind == "sub" && n.Fields != 0 {
+				if owners[n.Fields] == nil {
+					owners[n.Fields] = map[uintptr]bool{}
+				}
+				owners[n.Fields][n.Addr] = true
+				fieldsOf[n.Addr] = n.Fields
+			}
+		}
 	}
-	for _, n := range walk {
-		if n.Walk == "" {
-			if n.Field != "" || n.Parent != 0 {
-				s.fail("root-has-context", "root stores field %q parent %#x", n.Field, n.Parent)
+	// a deviation below a config whose storage is also the storage of another
+	// config (a copy that is no copy) gets its own signature
+	narrow := func(t int, n ucfg.VerifNode, generic string) string {
+		if f := fieldsOf[n.Holder]; f != 0 && len(owners[f]) > 1 {
+			return "write-shows-up-in-copy-and-original"
+		}
+		return s.classify(t, n.Walk, generic)
+	}
+	for t := range s.trees {
+		for _, n := range walks[t] {
+			if n.Walk == "" {
+				if n.Field != "" || n.Parent != 0 {
+					s.fail(s.classify(t, "", "root-has-context"), "root of T%d stores field %q parent %#x", t, n.Field, n.Parent)
+					return
+				}
+				continue
+			}
+			lastSeg := n.Walk[strings.LastIndex(n.Walk, ".")+1:]
+			if n.Field != lastSeg {
+				s.fail(narrow(t, n, "stored-field-name-wrong"), "T%d: node reached at %q stores field name %q", t, n.Walk, n.Field)
 				return
 			}
-			continue
+			if n.Parent != n.Holder {
+				s.fail(narrow(t, n, "stored-parent-wrong"), "T%d: node reached at %q is held by config %#x but stores parent %#x", t, n.Walk, n.Holder, n.Parent)
+				return
+			}
 		}
-		lastSeg := n.Walk[strings.LastIndex(n.Walk, ".")+1:]
-		if n.Field != lastSeg {
-			s.fail(s.classify(n.Walk, "stored-field-name-wrong"), "node reached at %q stores field name %q", n.Walk, n.Field)
-			return
+	}
+	for t := range s.trees {
+		var p *model.Node
+		if t == changed {
+			p = prev
 		}
-		if n.Parent != n.Holder {
-			s.fail(s.classify(n.Walk, "stored-parent-wrong"), "node reached at %q is held by config %#x but stores parent %#x", n.Walk, n.Holder, n.Parent)
+		if s.verifyTree(t, p); s.failed {
 			return
 		}
 	}
+}
+
+// listReportsIsDict: on the way to the setting with canonical path key there
+// is a container that has elements and no named setting (a list by the
+// property's terms) for which the library still answers IsDict().
+func (s *state) listReportsIsDict(t int, key string) bool {
+	segs := strings.Split(key, ".")
+	h, n := s.trees[t].c, s.trees[t].m
+	for i := 0; ; i++ {
+		if isList(n) && len(n.A) > 0 && h.IsDict() {
+			return true
+		}
+		if i >= len(segs)-1 {
+			return false
+		}
+		var err error
+		if idx, e := strconv.Atoi(segs[i]); e == nil && isList(n) && idx < len(n.A) {
+			h, err = h.Child("", idx)
+			n = n.A[idx]
+		} else {
+			h, err = h.Child(segs[i], -1)
+			n = n.D[segs[i]]
+		}
+		if err != nil || !n.IsSub() {
+			return false
+		}
+	}
+}
+
+// keysSig classifies a FlattenedKeys deviation (want in canonical spelling).
+func (s *state) keysSig(t int, got, want []string, sep, generic string) string {
+	if foreign(got, want, sep) {
+		return "flattenedkeys-spelled-with-other-separator"
+	}
+	wantS := respell(want, sep)
+	gs, ws := map[string]bool{}, map[string]bool{}
+	for _, k := range got {
+		gs[k] = true
+	}
+	for _, k := range wantS {
+		ws[k] = true
+	}
+	extra, extraNull := false, true
+	for _, k := range got {
+		if !ws[k] {
+			extra = true
+			if n := at(s.trees[t].m, strings.Split(strings.ReplaceAll(k, sep, "."), ".")); n == nil || n.Kind != model.KNil {
+				extraNull = false
+			}
+		}
+	}
+	var missing []string
+	for _, k := range want {
+		if !gs[strings.ReplaceAll(k, ".", sep)] {
+			missing = append(missing, k)
+		}
+	}
+	if extra && extraNull && len(missing) == 0 {
+		return "flattenedkeys-lists-null-setting"
+	}
+	if !extra && len(missing) > 0 && len(got)+len(missing) == len(want) {
+		all := true
+		for _, k := range missing {
+			if !s.listReportsIsDict(t, k) {
+				all = false
+				break
+			}
+		}
+		if all {
+			return "flattenedkeys-skips-elements-of-list-still-reporting-isdict"
+		}
+	}
+	// attribute to a known shape if every differing key lies under one
+	diffKeys := symdiff(got, wantS)
+	cls := ""
+	for _, k := range diffKeys {
+		c := s.classify(t, strings.ReplaceAll(k, sep, "."), "")
+		if c == "" || (cls != "" && c != cls) {
+			return generic
+		}
+		cls = c
+	}
+	if cls != "" {
+		return cls
+	}
+	return generic
+}
+
+func (s *state) verifyTree(t int, prev *model.Node) {
+	tr := s.trees[t]
 	// (2) API walk
 	_, wsep := s.observer()
-	s.apiWalk(s.c, s.m, nil, wsep)
+	s.apiWalk(t, tr.c, tr.m, nil, wsep)
 	if s.failed {
 		return
 	}
 	// (3) FlattenedKeys
 	var want []string
-	leafPaths(s.m, nil, &want)
+	leafPaths(tr.m, nil, &want)
 	sort.Strings(want)
 	fo, fsep := s.observer()
-	got := s.c.FlattenedKeys(fo...)
+	got := tr.c.FlattenedKeys(fo...)
 	s.res.Eval(1)
 	if wantS := respell(want, fsep); !eq(got, wantS) {
-		sig := "flattenedkeys-mismatch"
-		if foreign(got, want, fsep) {
-			sig = "flattenedkeys-spelled-with-other-separator"
-		} else {
-			// attribute to a known shape if every differing key lies under one
-			diffKeys := symdiff(got, wantS)
-			all := len(diffKeys) > 0
-			cls := ""
-			for _, k := range diffKeys {
-				c := s.classify(strings.ReplaceAll(k, fsep, "."), "")
-				if c == "" || (cls != "" && c != cls) {
-					all = false
-					break
-				}
-				cls = c
-			}
-			if all {
-				sig = cls
-			}
-		}
-		s.fail(sig, "FlattenedKeys(%s)=%v want %v", optName(fo, fsep), got, wantS)
+		s.fail(s.keysSig(t, got, want, fsep, "flattenedkeys-mismatch"), "T%d.FlattenedKeys(%s)=%v want %v", t, optName(fo, fsep), got, wantS)
 		return
 	}
 	s.res.Ev("flattened_keys_compared", int64(len(want)))
@@ -663,57 +997,59 @@ func (s *state) verify(prev *model.Node) {
 		s.res.Ev("flattenedkeys_calls_other_sep_with_nested_keys", 1)
 	}
 	// (4) CompareConfigs
-	cp, err := ucfg.NewFrom(s.m.ToGo(), s.o()...)
-	if err == nil && !s.reattached {
-		do, dsep := s.observer()
-		d := diff.CompareConfigs(s.c, cp, do...)
-		s.res.Eval(1)
-		if d.HasChanged() || !eq(sorted(d[diff.Keep]), respell(want, dsep)) {
-			sig := "diff-equal-configs-changed"
-			if foreign(cat(cat(d[diff.Keep], d[diff.Add]), d[diff.Remove]), want, dsep) {
-				sig = "diff-keys-spelled-with-other-separator"
-			}
-			s.fail(sig, "CompareConfigs(x, equal copy, %s) = %v, expected no change and kept keys %v", optName(do, dsep), d, respell(want, dsep))
-			return
+	cp, err := ucfg.NewFrom(tr.m.ToGo(), s.o()...)
+	if err != nil {
+		return
+	}
+	do, dsep := s.observer()
+	d := diff.CompareConfigs(tr.c, cp, do...)
+	s.res.Eval(1)
+	if d.HasChanged() || !eq(sorted(d[diff.Keep]), respell(want, dsep)) {
+		sig := "diff-equal-configs-changed"
+		if foreign(cat(cat(d[diff.Keep], d[diff.Add]), d[diff.Remove]), want, dsep) {
+			sig = "diff-keys-spelled-with-other-separator"
 		}
-		if dsep != "." && nested(want) {
-			s.res.Ev("diffs_other_sep_with_nested_keys", 1)
+		s.fail(sig, "CompareConfigs(T%d, equal copy, %s) = %v, expected no change and kept keys %v", t, optName(do, dsep), d, respell(want, dsep))
+		return
+	}
+	if dsep != "." && nested(want) {
+		s.res.Ev("diffs_other_sep_with_nested_keys", 1)
+	}
+	if prev == nil {
+		return
+	}
+	pc, err := ucfg.NewFrom(prev.ToGo(), s.o()...)
+	if err != nil {
+		return
+	}
+	var old []string
+	leafPaths(prev, nil, &old)
+	do, dsep = s.observer()
+	rev := s.r.Intn(4) == 0 // the step undone: added and removed change places
+	if rev {
+		d = diff.CompareConfigs(tr.c, pc, do...)
+		old, want = want, old
+	} else {
+		d = diff.CompareConfigs(pc, tr.c, do...)
+	}
+	s.res.Eval(1)
+	wk, wa, wr := partition(old, want)
+	wk, wa, wr = respell(wk, dsep), respell(wa, dsep), respell(wr, dsep)
+	gk, ga, gr := sorted(d[diff.Keep]), sorted(d[diff.Add]), sorted(d[diff.Remove])
+	if !eq(gk, wk) || !eq(ga, wa) || !eq(gr, wr) {
+		sig := "diff-partition-mismatch"
+		if foreign(cat(cat(gk, ga), gr), cat(old, want), dsep) {
+			sig = "diff-keys-spelled-with-other-separator"
 		}
-		if prev != nil {
-			pc, err := ucfg.NewFrom(prev.ToGo(), s.o()...)
-			if err == nil {
-				var old []string
-				leafPaths(prev, nil, &old)
-				do, dsep := s.observer()
-				var d diff.Diff
-				rev := s.r.Intn(4) == 0 // the step undone: added and removed change places
-				if rev {
-					d = diff.CompareConfigs(s.c, pc, do...)
-					old, want = want, old
-				} else {
-					d = diff.CompareConfigs(pc, s.c, do...)
-				}
-				s.res.Eval(1)
-				wk, wa, wr := partition(old, want)
-				wk, wa, wr = respell(wk, dsep), respell(wa, dsep), respell(wr, dsep)
-				gk, ga, gr := sorted(d[diff.Keep]), sorted(d[diff.Add]), sorted(d[diff.Remove])
-				if !eq(gk, wk) || !eq(ga, wa) || !eq(gr, wr) {
-					sig := "diff-partition-mismatch"
-					if foreign(cat(cat(gk, ga), gr), cat(old, want), dsep) {
-						sig = "diff-keys-spelled-with-other-separator"
-					}
-					s.fail(sig, "CompareConfigs(old, new, %s) reversed=%v: keep=%v add=%v remove=%v; want keep=%v add=%v remove=%v", optName(do, dsep), rev, gk, ga, gr, wk, wa, wr)
-					return
-				}
-				s.res.Ev("diffs_compared", 1)
-				if len(wa) > 0 && len(wr) > 0 {
-					s.res.Ev("diffs_with_added_and_removed", 1)
-				}
-				if dsep != "." && (nested(old) || nested(want)) {
-					s.res.Ev("diffs_other_sep_with_nested_keys", 1)
-				}
-			}
-		}
+		s.fail(sig, "CompareConfigs(old, new, %s) of T%d reversed=%v: keep=%v add=%v remove=%v; want keep=%v add=%v remove=%v", optName(do, dsep), t, rev, gk, ga, gr, wk, wa, wr)
+		return
+	}
+	s.res.Ev("diffs_compared", 1)
+	if len(wa) > 0 && len(wr) > 0 {
+		s.res.Ev("diffs_with_added_and_removed", 1)
+	}
+	if dsep != "." && (nested(old) || nested(want)) {
+		s.res.Ev("diffs_other_sep_with_nested_keys", 1)
 	}
 }
 
@@ -724,18 +1060,18 @@ func optName(o []ucfg.Option, sep string) string {
 	return fmt.Sprintf("PathSep(%q)", sep)
 }
 
-func (s *state) apiWalk(c *ucfg.Config, n *model.Node, q []string, sep string) {
+func (s *state) apiWalk(t int, c *ucfg.Config, n *model.Node, q []string, sep string) {
 	if s.failed {
 		return
 	}
 	if p := c.Path(sep); p != strings.Join(q, sep) {
-		sig := s.classify(join(q), "path-wrong")
+		sig := s.classify(t, join(q), "path-wrong")
 		for _, sp := range sepPool {
-			if sp != sep && p == strings.Join(q, sp) {
+			if sp != sep && len(q) > 1 && p == strings.Join(q, sp) {
 				sig = "path-spelled-with-other-separator"
 			}
 		}
-		s.fail(sig, "config reached via %v reports Path(%q)=%q", q, sep, p)
+		s.fail(sig, "T%d: config reached via %v reports Path(%q)=%q", t, q, sep, p)
 		return
 	}
 	s.res.Eval(1)
@@ -747,11 +1083,7 @@ func (s *state) apiWalk(c *ucfg.Config, n *model.Node, q []string, sep string) {
 		got := c.FlattenedKeys(fo...)
 		s.res.Eval(1)
 		if wantS := respell(want, fsep); !eq(got, wantS) {
-			sig := s.classify(join(q), "flattenedkeys-of-child-handle-mismatch")
-			if foreign(got, want, fsep) {
-				sig = "flattenedkeys-spelled-with-other-separator"
-			}
-			s.fail(sig, "FlattenedKeys(%s) of the handle for %v = %v want %v", optName(fo, fsep), q, got, wantS)
+			s.fail(s.keysSig(t, got, want, fsep, "flattenedkeys-of-child-handle-mismatch"), "T%d: FlattenedKeys(%s) of the handle for %v = %v want %v", t, optName(fo, fsep), q, got, wantS)
 			return
 		}
 		s.res.Ev("flattenedkeys_of_child_handles_compared", 1)
@@ -762,7 +1094,7 @@ func (s *state) apiWalk(c *ucfg.Config, n *model.Node, q []string, sep string) {
 		}
 		w := cat(q, []string{seg})
 		if p := c.PathOf(seg, sep); p != strings.Join(w, sep) {
-			s.fail(s.classify(join(q), "pathof-wrong"), "config reached via %v reports PathOf(%q,%q)=%q", q, seg, sep, p)
+			s.fail(s.classify(t, join(q), "pathof-wrong"), "T%d: config reached via %v reports PathOf(%q,%q)=%q", t, q, seg, sep, p)
 			return
 		}
 		s.res.Eval(1)
@@ -772,14 +1104,14 @@ func (s *state) apiWalk(c *ucfg.Config, n *model.Node, q []string, sep string) {
 		ch, err := c.Child(name, idx, s.o()...)
 		s.res.Eval(1)
 		if err != nil {
-			s.fail("child-error", "Child(%q,%d) below %v failed: %v", name, idx, q, err)
+			s.fail("child-error", "T%d: Child(%q,%d) below %v failed: %v", t, name, idx, q, err)
 			return
 		}
 		if ch.Parent() != c {
-			s.fail(s.classify(join(w), "parent-wrong"), "config reached at %q: Parent() is not the config it was reached from (Parent path %q)", join(w), pathOf(ch.Parent()))
+			s.fail(s.classify(t, join(w), "parent-wrong"), "T%d: config reached at %q: Parent() is not the config it was reached from (Parent path %q)", t, join(w), pathOf(ch.Parent()))
 			return
 		}
-		s.apiWalk(ch, v, w, sep)
+		s.apiWalk(t, ch, v, w, sep)
 	}
 	for _, k := range n.SortedKeys() {
 		visit(k, n.D[k], k, -1)
